@@ -115,6 +115,39 @@ func ruleDial(c *Ctx) {
 	// every DialStream call in the service package
 	n := 0
 	var okRecv func(v ssa.Value, depth int) bool
+	var okSource func(arg ssa.Value, depth int) bool
+	// okSource: a value handed on as "the dialer": the handler's dialer field itself, or a closure / service type converted to a
+	// dialer whose own dials are all on that field
+	okSource = func(arg ssa.Value, depth int) bool {
+		okArg, _ := p.AllFrom(arg, deepF, func(y ssa.Value) bool {
+			if eng.IsFieldLoad(y, shT, dialField) {
+				return true
+			}
+			var lit *ssa.Function
+			if mc, ok := y.(*ssa.MakeClosure); ok {
+				lit = mc.Fn.(*ssa.Function)
+			} else if al, ok := y.(*ssa.Alloc); ok {
+				// a value of a service type that implements the dialer interface itself
+				if pt, ok := al.Type().(*types.Pointer); ok {
+					lit = fnByMethod(c, "service", eng.TypeName(pt.Elem()), "DialStream")
+				}
+			}
+			if lit == nil {
+				return false
+			}
+			good := false
+			for _, cl := range eng.Calls(lit) {
+				if call, ok := cl.(*ssa.Call); ok && eng.MethodName(&call.Call) == "DialStream" {
+					good = okRecv(eng.Receiver(&call.Call), depth+1)
+					if !good {
+						return false
+					}
+				}
+			}
+			return good
+		})
+		return okArg
+	}
 	okRecv = func(v ssa.Value, depth int) bool {
 		if depth > 4 {
 			return false
@@ -137,32 +170,20 @@ func ruleDial(c *Ctx) {
 				}
 				for _, s := range sites {
 					arg := s.Ins.(ssa.CallInstruction).Common().Args[idx]
-					// a closure converted to a dialer type whose own dials are all on the field
-					okArg, _ := p.AllFrom(arg, deepF, func(y ssa.Value) bool {
-						var lit *ssa.Function
-						if mc, ok := y.(*ssa.MakeClosure); ok {
-							lit = mc.Fn.(*ssa.Function)
-						} else if al, ok := y.(*ssa.Alloc); ok {
-							// a value of a service type that implements the dialer interface itself
-							if pt, ok := al.Type().(*types.Pointer); ok {
-								lit = fnByMethod(c, "service", eng.TypeName(pt.Elem()), "DialStream")
-							}
-						}
-						if lit == nil {
-							return false
-						}
-						good := false
-						for _, cl := range eng.Calls(lit) {
-							if call, ok := cl.(*ssa.Call); ok && eng.MethodName(&call.Call) == "DialStream" {
-								good = okRecv(eng.Receiver(&call.Call), depth+1)
-								if !good {
-									return false
-								}
-							}
-						}
-						return good
-					})
-					if !okArg {
+					if !okSource(arg, depth) {
+						return false
+					}
+				}
+				return true
+			}
+			// a field of a small request/parameter struct of the package: every value stored into that field qualifies
+			if t, fl, _, isFL := eng.FieldLoad(x); isFL && strings.HasPrefix(t, "service.") && t != shT {
+				stores := p.FieldStores(t, fl)
+				if len(stores) == 0 {
+					return false
+				}
+				for _, st := range stores {
+					if st.Val == nil || !okSource(st.Val, depth) {
 						return false
 					}
 				}
@@ -575,21 +596,99 @@ func ruleTable(c *Ctx) {
 		c.Undecided("TABLE", "anchor:IsPrivateAddress", "-", "net.IsPrivateAddress not found")
 		return
 	}
-	var cont *ssa.Call
-	for _, cl := range eng.Calls(ip) {
-		if call, ok := cl.(*ssa.Call); ok && eng.CalleeName(&call.Call) == "(*net.IPNet).Contains" {
-			cont = call
+	findCont := func(f *ssa.Function) *ssa.Call {
+		var cont *ssa.Call
+		for _, cl := range eng.Calls(f) {
+			if call, ok := cl.(*ssa.Call); ok && eng.CalleeName(&call.Call) == "(*net.IPNet).Contains" {
+				cont = call
+			}
 		}
+		return cont
 	}
+	// the membership loop may live in a helper the function forwards to (a set type's contains method): follow calls of the
+	// package that are handed the address parameter and whose answer is returned unchanged
+	wrapper := ip
+	ipIdx := 0
+	for d := 0; d < 3 && findCont(ip) == nil; d++ {
+		var next *ssa.Function
+		nextIdx := -1
+		okFwd := true
+		for _, r := range eng.Returns(ip) {
+			call, isCall := retVal(p, r).(*ssa.Call)
+			if !isCall {
+				okFwd = false
+				break
+			}
+			h := call.Call.StaticCallee()
+			if h == nil || !p.InRepo(h) || len(h.Blocks) == 0 || (next != nil && next != h) {
+				okFwd = false
+				break
+			}
+			idx := -1
+			for i, a := range call.Call.Args {
+				if g, _ := p.AllFrom(a, eng.Plain, func(v ssa.Value) bool { return eng.IsParam(v, ip, ipIdx) }); g {
+					idx = i
+				}
+			}
+			if idx < 0 || (nextIdx >= 0 && nextIdx != idx) {
+				okFwd = false
+				break
+			}
+			next, nextIdx = h, idx
+		}
+		if !okFwd || next == nil {
+			break
+		}
+		ip, ipIdx = next, nextIdx
+	}
+	cont := findCont(ip)
 	if cont == nil {
-		c.Check("TABLE", short(ip)+":tests-membership", p.Pos(ip.Pos()), false, "IsPrivateAddress does not test IPNet.Contains")
+		c.Check("TABLE", short(wrapper)+":tests-membership", p.Pos(wrapper.Pos()), false, "IsPrivateAddress does not test IPNet.Contains")
 		return
 	}
-	okArg, _ := p.AllFrom(cont.Call.Args[1], eng.Plain, func(v ssa.Value) bool { return eng.IsParam(v, ip, 0) })
+	okArg, _ := p.AllFrom(cont.Call.Args[1], eng.Plain, func(v ssa.Value) bool { return eng.IsParam(v, ip, ipIdx) })
 	c.CheckAt("TABLE", short(ip)+":tests-the-parameter", cont, okArg, "membership is tested for something other than the parameter")
 	tE, fE := eng.BoolEdges(ip, func(v ssa.Value) bool { return v == ssa.Value(cont) })
 	for i, r := range eng.Returns(ip) {
-		cst, ok := r.Results[0].(*ssa.Const)
+		rv := retVal(p, r)
+		if ph, isPhi := rv.(*ssa.Phi); isPhi {
+			// a verdict variable (`found = true; break` ... `return found`): judged edge by edge
+			okPhi := true
+			for k, ev := range ph.Edges {
+				pc, isC := ev.(*ssa.Const)
+				if !isC || pc.Value == nil {
+					okPhi = false
+					continue
+				}
+				pred := ph.Block().Preds[k]
+				e := eng.Edge{From: pred, To: ph.Block()}
+				if pc.Value.ExactString() == "true" {
+					if !(tE[e] || eng.Cut(ip, pred, tE)) {
+						okPhi = false
+					}
+				} else {
+					// false arrives only from a loop header (the table is exhausted) or from before the loop
+					fromHeader := false
+					for _, l := range eng.Loops(ip) {
+						if l.Header == pred {
+							fromHeader = true
+						}
+					}
+					behindMatch := false
+					for te := range tE {
+						if te.To == pred || eng.ReachBlocks(te.To, nil)[pred] {
+							behindMatch = true
+						}
+					}
+					if !fromHeader || behindMatch {
+						okPhi = false
+					}
+				}
+			}
+			c.CheckAt("TABLE", fmt.Sprintf("%s:return#%d:verdict-variable", short(ip), i), r, okPhi, "the verdict variable is true without a table match, or false before every table entry was tested")
+			continue
+		}
+		cst, ok := rv.(*ssa.Const)
 		if !ok {
 			c.CheckAt("TABLE", fmt.Sprintf("%s:return#%d", short(ip), i), r, false, "non-constant verdict")
 			continue
@@ -630,7 +729,7 @@ func ruleTable(c *Ctx) {
 		for _, b := range f.Blocks {
 			for _, ins := range b.Instrs {
 				if st, ok := ins.(*ssa.Store); ok {
-					if g, ok := st.Addr.(*ssa.Global); ok && strings.Contains(g.Type().String(), "net.IPNet") {
+					if g, ok := st.Addr.(*ssa.Global); ok && (strings.Contains(g.Type().String(), "net.IPNet") || isIPNetTable(g.Type())) {
 						tableGlobals[g] = true
 					}
 				}
@@ -638,16 +737,38 @@ func ruleTable(c *Ctx) {
 		}
 	}
 	okTab := false
-	for _, b := range ip.Blocks {
-		for _, ins := range b.Instrs {
-			if u, ok := ins.(*ssa.UnOp); ok && u.Op == token.MUL {
-				if g, ok := u.X.(*ssa.Global); ok && tableGlobals[g] {
-					okTab = true
+	for _, tf := range []*ssa.Function{ip, wrapper} {
+		for _, b := range tf.Blocks {
+			for _, ins := range b.Instrs {
+				if u, ok := ins.(*ssa.UnOp); ok && u.Op == token.MUL {
+					if g, ok := u.X.(*ssa.Global); ok && tableGlobals[g] {
+						okTab = true
+					}
 				}
 			}
 		}
 	}
 	c.Check("TABLE", short(ip)+":uses-the-table", p.Pos(ip.Pos()), okTab, "the membership function does not read the table the CIDR literals are stored in")
+}
+
+// isIPNetTable: t (or what it points to) is, underneath, a slice or array of *net.IPNet / net.IPNet.
+func isIPNetTable(t types.Type) bool {
+	if pt, ok := t.Underlying().(*types.Pointer); ok {
+		t = pt.Elem()
+	}
+	var el types.Type
+	switch u := t.Underlying().(type) {
+	case *types.Slice:
+		el = u.Elem()
+	case *types.Array:
+		el = u.Elem()
+	default:
+		return false
+	}
+	if pt, ok := el.Underlying().(*types.Pointer); ok {
+		el = pt.Elem()
+	}
+	return eng.TypeName(el) == "net.IPNet" || strings.HasSuffix(el.String(), "net.IPNet")
 }
 
 // ---- C05.NOOVERRIDE ----
